@@ -835,15 +835,16 @@ static void overwrite_item(cJSON * const root, const cJSON replacement)
         return;
     }
 
-    if (root->string != NULL)
+    /* only release what the item owns: not a constant key, not the text or children of a reference */
+    if ((root->string != NULL) && !(root->type & cJSON_StringIsConst))
     {
         cJSON_free(root->string);
     }
-    if (root->valuestring != NULL)
+    if ((root->valuestring != NULL) && !(root->type & cJSON_IsReference))
     {
         cJSON_free(root->valuestring);
     }
-    if (root->child != NULL)
+    if ((root->child != NULL) && !(root->type & cJSON_IsReference))
     {
         cJSON_Delete(root->child);
     }
@@ -922,8 +923,12 @@ static int apply_patch(cJSON *object, const cJSON *patch, const cJSON_bool case_
             /* the string "value" isn't needed */
             if (object->string != NULL)
             {
-                cJSON_free(object->string);
+                if (!(object->type & cJSON_StringIsConst))
+                {
+                    cJSON_free(object->string);
+                }
                 object->string = NULL;
+                object->type &= ~cJSON_StringIsConst;
             }
 
             status = 0;
